@@ -80,7 +80,7 @@ def run_docs(ctx: core.Ctx, params, props, profile="isd"):
   for i in range(n):
     rng = ctx.rng("doc", params["shard"], i)
     focus = focus_cycle[(params["shard"] * n + i) % len(focus_cycle)] if profile == "style" else None
-    adoc0, classes = model_docs.generate(rng, profile, focus)
+    adoc0, classes = model_docs.generate(rng, profile, focus, p_uspace=0.12 if i % 3 == 0 else 0.0)
     check_doc(ctx, adoc0, rng, props, classes, cmp_counters)
   for k, v in cmp_counters.items():
     ctx.count(k, v)
